@@ -1,5 +1,7 @@
-"""calls: the model may leave a call's outcome open ("ok|err": a reset can destroy an answer the client has not read yet,
-a cancel issued right after the complete answer was written races with its delivery); everything else must be equal."""
+"""calls: the model may leave a call's outcome open ("ok|err": a reset can destroy an answer the client has not read yet;
+a cancel issued right after the complete answer was written races with its delivery; the death of the child cancels the
+transport context while its last complete answer is being handed over - the call's select has two ready cases);
+everything else must be equal."""
 
 
 def compare(op, impl, model, rep):
@@ -13,6 +15,11 @@ def compare(op, impl, model, rep):
         if impl.get("ok") != model.get("ok") or il != ml or not (0 <= si <= sm):
             return "Close on a live child: implementation %r, model (stuck = upper bound) %r" % (impl, model)
         return None
+    if op.get("c") == "calls.doubleClose":
+        # the model's schedule is the worst interleaving; the implementation may or may not hit it in the rounds it is given
+        if model.get("outcome") == "crash":
+            return None if impl.get("outcome") in ("crash", "err") else "outcome %r" % (impl,)
+        return None if impl == model else "kill -9 + Close() with calls pending: implementation %r, model %r" % (impl, model)
     if "calls" not in model:
         return None if impl == model else "outcomes differ: implementation %r, model %r" % (impl, model)
     ic, mc = impl.get("calls", []), model.get("calls", [])
